@@ -38,6 +38,7 @@ BOUNDARY = {
     "clustered": [False, False, True],
     "print_freq": [1, 7, 100],
     "loss_mode": ["none", "none", "assign", "assign+chrom", "user"],
+    "prevalence_column": ["cellular_prevalence", "cellular_prevalence", "ccf", None],
     "low_loss_prob": [1e-4, 0.01],
     "high_loss_prob": [0.4, 1.0],
 }
@@ -175,7 +176,8 @@ def run_task(task):
                         r["chrom"] = "chr%d" % (1 + sum(map(ord, str(r["mutation_id"]))) % 22)
                     inputs.write_table(rows, in_file)
                 crow, _assign = inputs.make_clusters(rng, rows, cfg["n"], outlier_prob_col=[0.0, 0.05, 0.5, 1e-4]
-                                                     if cfg["loss_mode"] == "user" else None)
+                                                     if cfg["loss_mode"] == "user" else None,
+                                                     prev_col=cfg["prevalence_column"])
                 cluster_file = os.path.join(tmpdir, "cl_%d.tsv" % idx)
                 inputs.write_table(crow, cluster_file)
             out_file = os.path.join(tmpdir, "out_%d.pkl.gz" % idx)
